@@ -582,6 +582,7 @@ def run(ctx):
     convertibility_through_bases(ctx)
     declared_virtuals_are_collected(ctx)
     each_base_contributes_its_own_list(ctx)
+    function_specifiers_are_recorded_as_written(ctx)
 
     # ------------------------------------------------------------ R10.2
     fd = db.fn("InterrogateBuilder::define_struct_type")
@@ -918,3 +919,49 @@ def each_base_contributes_its_own_list(ctx):
                "each base fills a list of its own, appended to the result afterwards" if fresh and merged else
                "the bases share one list: the override pass of a later base erases functions of an earlier, unrelated base")
     ctx.floor("R10.11", "recursive calls of get_virtual_funcs", n, 1)
+
+
+SPECIFIER_FLAGS = {"T_integer": "SC_pure_virtual", "T_default": "SC_defaulted", "T_delete": "SC_deleted"}
+
+
+def function_specifiers_are_recorded_as_written(ctx):
+    """R10.12: `= 0`, `= default` and `= delete` after a function declarator are recorded by CPPInstance::set_initializer as
+    SC_pure_virtual / SC_defaulted / SC_deleted; abstractness, triviality and deletedness are all read from these bits.
+    The bit depends on what was WRITTEN only: an overrider `void f() override = 0;` carries no `virtual` keyword - it is
+    found to be virtual later, by get_virtual_funcs() - and is pure all the same.  (Seed S10-C10: SC_pure_virtual was set
+    only if SC_virtual was already set; a class that re-declares an inherited function pure became concrete and got
+    constructors.)"""
+    db = ctx.db
+    ctx.rule("R10.12", "in CPPInstance::set_initializer each specifier bit is set under a test of `initializer->_type` against its own enumerator, and under no condition that reads _storage_class")
+    fs = [g for g in db.functions if g.name == "CPPInstance::set_initializer"]
+    if not fs:
+        ctx.broken("R10.12: CPPInstance::set_initializer not found")
+        return
+    f = fs[0]
+    seen = {}
+    for y in f.walk():
+        if not (y.get("k") == "bin" and y.get("op") == "|=" and (field_of(strip_casts(peel(y["x"]))) or "").endswith("::_storage_class")):
+            continue
+        bits = [z.get("n").split("::")[-1] for z in walk(y["y"]) if z.get("k") == "ref" and "SC_" in (z.get("n") or "")]
+        conds = []
+        for a in f.ancestors(y):
+            if a.get("k") == "if" and any(z is y for z in walk(a.get("then") or {})):
+                conds += _conjuncts(a["c"])
+        reads_sc = [c for c in conds if any(z.get("k") == "mem" and (z.get("n") or "").endswith("::_storage_class") for z in walk(c))]
+        kinds = set()
+        for c in conds:
+            ca = G.cmp_atom(c)
+            if ca and ca[0] == "==":
+                for u, v in ((ca[1], ca[2]), (ca[2], ca[1])):
+                    if u is not None and v is not None and (field_of(strip_casts(peel(u))) or "").endswith("CPPExpression::_type") and (strip_casts(peel(v)) or {}).get("k") == "ref":
+                        kinds.add(strip_casts(peel(v))["n"].split("::")[-1])
+        for b in bits:
+            want = [k for k, v in SPECIFIER_FLAGS.items() if v == b]
+            ok = bool(want) and want[0] in kinds and not reads_sc
+            seen[b] = True
+            ctx.ob("R10.12", "set_initializer|%s|as-written" % b, ok, f.loc(y),
+                   "%s is set exactly when the initializer is %s" % (b, want[0] if want else "?") if ok else
+                   ("%s also depends on the bits already in _storage_class (%s)" % (b, show(reads_sc[0])[:50]) if reads_sc else "%s is not tied to its initializer kind" % b))
+    for b in SPECIFIER_FLAGS.values():
+        if b not in seen:
+            ctx.ob("R10.12", "set_initializer|%s|as-written" % b, False, f.loc(), "%s is never set" % b)
